@@ -1327,6 +1327,14 @@ impl World {
                 .cloned();
             if let Some((mt, idx, et)) = lost {
                 ctx.v(
+                    "C15",
+                    "snapshot install discards entries the node acknowledged to the current leader",
+                    format!(
+                        "node {} (term {}) installs a snapshot at index {} although it acknowledged index {} (entry term {}) to the leader of term {}",
+                        id, cur_term, m.index, idx, et, mt
+                    ),
+                );
+                ctx.v(
                     "C06",
                     "snapshot install discards entries the node acknowledged to the current leader",
                     format!(
